@@ -396,7 +396,7 @@ PROPERTIES["C10"] = {
     "explanation": "C10: wlearner_t::fit/predict/split/scale/clone of stump, affine and dense-table learners through the real dataset + select_iterator stack with the RSS criterion.",
     "assumptions": SRE_ASSUME + ["gradients boxed to [-8,8]; feature cells symbolic in [-8,8] (cx=0) or concrete (cx=1)", "one output (regression target)", "RSS criterion (make_score clamps at 1e3*epsilon; reference clamps identically)"],
     "bounds": {"samples": "3..4", "features": "1..3 scalar / 1..2 categorical (3 classes)", "missing patterns": "0, 1", "sample subsets": "all / with repetition"},
-    "outside": ["hinge, dstep, kbest/ksplit tables, decision trees (depth > 1) and merging of learners: not covered", "16 threads", "more than 4 samples with fully symbolic data (nlsat returns unknown on the optimality inequalities)", "aic/aicc/bic criteria (log)"],
+    "outside": ["fitting of hinge, dstep, kbest/ksplit tables and decision trees (depth > 1): not covered (merging IS covered for table and affine learners in arbitrary label->table mapping states)", "16 threads", "more than 4 samples with fully symbolic data (nlsat returns unknown on the optimality inequalities)", "aic/aicc/bic criteria (log)"],
     "units": [
         {"engine": "sre", "harness": "C10_wlearner", "sources": ["C10_wlearner.cpp"],
          "quick": ["wl=stump;f=rr;n=3", "wl=stump;f=rrr;n=3;miss=1", "wl=stump;f=rrr;n=4;cx=1;sub=1", "wl=affine;f=rr;n=3", "wl=affine;f=rrr;n=4;cx=1", "wl=affine;f=rrr;n=3;cx=1;miss=1",
@@ -408,6 +408,12 @@ PROPERTIES["C10"] = {
          "encoded": ["nano::wlearner_t::{fit, split}", "nano::stump_wlearner_t::{do_fit, do_predict, do_split}", "nano::affine_wlearner_t::{do_fit, do_predict}", "nano::dense_table_wlearner_t::do_fit",
                      "nano::table_wlearner_t::{set, do_predict, do_split}", "nano::wlearner::accumulator_t", "nano::wlearner::make_score", "nano::single_feature_wlearner_t::scale", "nano::select_iterator_t::loop",
                      "nano::learner_t::predict", "nano::min_reduce"]},
+        {"engine": "sre", "harness": "C10_merge", "sources": ["C10_merge.cpp"],
+         "quick": ["kind=table;map1=abc;map2=abc", "kind=table;map1=aab;map2=abb", "kind=table;map1=aab;map2=aab;map3=abb", "kind=table;map1=abc;map2=abc;f2=1", "kind=table;map1=aba;map2=aab;map3=aba",
+                   "kind=affine", "kind=affine;f2=1", "kind=mixed;map1=aab;map2=aab", "kind=table;map1=aab;map2=aab;miss=1"],
+         "thorough": ["kind=table;map1=%s;map2=%s;map3=%s;f2=%d" % (a, b, c, f) for a in ("abc", "aab", "aba", "abb", "aaa") for b in ("abc", "aab", "abb") for c in ("-", "aab") for f in (0, 1)] +
+                     ["kind=affine", "kind=affine;f2=1", "kind=mixed;map1=aab;map2=aab", "kind=mixed;map1=abc;map2=abc;f2=1", "kind=table;map1=aab;map2=aab;miss=1"],
+         "encoded": ["nano::wlearner::merge", "nano::table_wlearner_t::try_merge", "nano::affine_wlearner_t::try_merge", "nano::single_feature_wlearner_t::do_try_merge", "nano::table_wlearner_t::do_predict", "nano::affine_wlearner_t::do_predict"]},
     ],
 }
 
